@@ -129,7 +129,7 @@ func e4EnumRun(t *testing.T, prop, replayTest string, ws []e4EnumWorkload, oracl
 
 func e4EnumCfgs(name string, steps []e4Step, depth int, cfgs map[string]e4Config, extra ...string) []e4EnumWorkload {
 	var out []e4EnumWorkload
-	for _, k := range []string{"A", "B", "lost", "always", "clean", "timeout", "direct"} {
+	for _, k := range []string{"A", "B", "lost", "always", "clean", "timeout", "direct", "repeat", "repeatB"} {
 		if cfg, ok := cfgs[k]; ok {
 			out = append(out, e4EnumWorkload{Name: name + "/" + k, Cfg: cfg, Steps: steps, Depth: depth, Extra: extra})
 		}
@@ -145,13 +145,15 @@ var (
 	e4CfgClean   = e4Config{SessionKept: false, CleanSession: true}
 	e4CfgTimeout = e4Config{SessionKept: true, RespTimeoutMs: 60000, MethodB: true}
 	e4CfgDirect  = e4Config{SessionKept: true, DirectQoS0: true}
+	e4CfgRepeat  = e4Config{SessionKept: true, RepeatPubrec: true}
+	e4CfgRepeatB = e4Config{SessionKept: true, RepeatPubrec: true, MethodB: true}
 )
 
 // TestVerifC02_CutEnum: every placement of up to 3 (thorough: 4) consecutive cuts around a QoS2 exchange, both
 // receiver methods, alone and next to other requests.
 func TestVerifC02_CutEnum(t *testing.T) {
 	ab := map[string]e4Config{"A": e4CfgA, "B": e4CfgB}
-	abt := map[string]e4Config{"A": e4CfgA, "B": e4CfgB, "timeout": e4CfgTimeout, "always": e4CfgAlways}
+	abt := map[string]e4Config{"A": e4CfgA, "B": e4CfgB, "timeout": e4CfgTimeout, "always": e4CfgAlways, "repeat": e4CfgRepeat, "repeatB": e4CfgRepeatB}
 	var ws []e4EnumWorkload
 	ws = append(ws, e4EnumCfgs("q2", e4EnumSteps(e4Connect, e4Pub(2, "t/a")), e4EnumDepth(3, 5), abt)...)
 	ws = append(ws, e4EnumCfgs("q1,q2", e4EnumSteps(e4Connect, e4Pub(1, "t/a"), e4Pub(2, "t/b")), e4EnumDepth(2, 3), ab)...)
@@ -164,7 +166,7 @@ func TestVerifC02_CutEnum(t *testing.T) {
 // TestVerifC12_CutEnum: the same trees under the retransmission oracle, with caller-chosen identifiers and retained
 // messages among them, and sessions that are not kept.
 func TestVerifC12_CutEnum(t *testing.T) {
-	ab := map[string]e4Config{"A": e4CfgA, "B": e4CfgB, "lost": e4CfgLost}
+	ab := map[string]e4Config{"A": e4CfgA, "B": e4CfgB, "lost": e4CfgLost, "repeat": e4CfgRepeat}
 	var ws []e4EnumWorkload
 	ws = append(ws, e4EnumCfgs("q2", e4EnumSteps(e4Connect, e4Step{Kind: "pub", QoS: 2, Topic: "t/a", Retain: true}), e4EnumDepth(3, 5), ab, "dialErr")...)
 	ws = append(ws, e4EnumCfgs("q1", e4EnumSteps(e4Connect, e4Step{Kind: "pub", QoS: 1, Topic: "t/a", ID: 40001}), e4EnumDepth(3, 5), ab, "dialErr", "refuse")...)
